@@ -19,12 +19,19 @@ SLOTS = ['Transition._source', 'Transition._target', 'CompoundState.initial', 'H
 
 
 def check(run):
+    rules_rename(run, 'C17')
+    rules_copy(run, 'C17')
+    from .c16 import rules_caches
+    rules_caches(run, 'C17', '.5')
+
+
+def rules_rename(run, P='C17', ids=('.1', '.2')):
     prog = run.prog
     fi = run.fn('Statechart.rename_state')
     F = fi.node
     old, new = q.param_names(F)[1:3]
-    r1 = run.rule('C17.1', 'substitution discipline: every write of new_name into a name-bearing slot is conditional on that same slot being equal to old_name')
-    r2 = run.rule('C17.2', 'substitution coverage: every name-bearing slot is rewritten (%s)' % ', '.join(SLOTS))
+    r1 = run.rule(P + ids[0], 'substitution discipline: every write of new_name into a name-bearing slot is conditional on that same slot being equal to old_name')
+    r2 = run.rule(P + ids[1], 'substitution coverage: every name-bearing slot is rewritten (%s)' % ', '.join(SLOTS))
     covered = set()
     n = 0
     for node in q.walk(F, False):
@@ -48,6 +55,21 @@ def check(run):
             label = tt
         at = guard_atoms(node)
         same = [a for a in at if a[0] == '==' and ((a[1] in read_forms and a[2] == old) or (a[2] in read_forms and a[1] == old))]
+        # nothing else may decide: early exits on (old, new) and kind tests on the owner are the only other conditions accepted
+        from ..cfg import atoms as _atoms
+        extra = []
+        for g in guards(node):
+            if g[2].startswith('early'):
+                continue
+            for a in _atoms(g[0], g[1]):
+                if a in same:
+                    continue
+                if a[0] == 'truthy' and a[1].replace(' ', '').startswith('isinstance(%s,' % owner):
+                    continue
+                extra.append(a)
+        if same:
+            run.check(not extra, r1, fi.short, 'write %s = new_name depends on nothing but its own slot' % tt,
+                      'the rewrite of %s is additionally conditional on %s: some references to the old name are left behind (e.g. the target of a self-loop)' % (tt, extra), node)
         run.check(len(same) >= 1, r1, fi.short, 'write %s = new_name only where %s == old_name' % (tt, sorted(read_forms)[0]),
                   'the slot %s is overwritten with the new name although it did not hold the old name (conditions: %s): e.g. an internal transition '
                   '(target None) becomes an external self-loop' % (tt, [a for a in at if a[0] != 'in' and old not in (a[1], a[2]) or True][:3]), node)
@@ -98,7 +120,11 @@ def check(run):
     rz = [x for x in q.raises_in(F) if q.raised_class(x) == 'StatechartError']
     run.check(any(('in', new, 'self._states') in guard_atoms(x) for x in rz), r1, fi.short, 'renaming to an existing name is rejected', 'missing', F)
 
-    r3 = run.rule('C17.3', 'copy_from_statechart works on a deep copy, renames before registering, registers every descendant through add_state and every touching '
+
+
+def rules_copy(run, P='C17', rid='.3'):
+    prog = run.prog
+    r3 = run.rule(P + rid, 'copy_from_statechart works on a deep copy, renames before registering, registers every descendant through add_state and every touching '
                            'transition through add_transition')
     ci = run.fn('Statechart.copy_from_statechart')
     C = ci.node
